@@ -26,4 +26,5 @@ fdc3243 C06 summary estimate inf with three pre-period points
 21b1ab1 C07 variable-cost estimate outside [lower, upper]
 da67930 C09 integer-valued float parameters crash the searches
 cee3f56 C18 TBRiROAS reports with declared column names KeyError
+bd4ec18 C09 greedy search TypeError for n_test >= 98
 LIST
